@@ -70,10 +70,10 @@ type (
 		Body   []Stmt
 	}
 	IfExpr struct {
-		Cond Expr
-		Then []Stmt
-		Else []Stmt // nil = no else; ElseIf takes precedence
-		ElseIf *IfExpr
+		Cond    Expr
+		Then    []Stmt
+		Else    []Stmt // nil = no else; ElseIf takes precedence
+		ElseIf  *IfExpr
 		HasElse bool
 	}
 	SwitchExpr struct {
